@@ -216,7 +216,7 @@ fn hostile_text() -> impl Strategy<Value = Bytes> {
 }
 
 pub fn long_text() -> impl Strategy<Value = Bytes> {
-    ("[a-z]{0,3}", prop::sample::select(vec!["a", "é", "中", "😀", "aé", "a 中", "%41", "é😀"]), prop::sample::select(vec![63usize, 64, 65, 127, 128, 129, 255, 256, 257, 300, 511, 512, 513, 1000, 1023, 1024, 1025, 2000, 4095, 4096, 4097, 8000]), 0usize..4)
+    ("[a-z]{0,3}", prop::sample::select(vec!["a", "é", "中", "😀", "aé", "a 中", "%41", "é😀", "Ã©", "ÿ"]), prop::sample::select(vec![63usize, 64, 65, 127, 128, 129, 255, 256, 257, 300, 511, 512, 513, 1000, 1023, 1024, 1025, 2000, 4095, 4096, 4097, 8000]), 0usize..4)
         .prop_map(|(pre, unit, len, extra)| { let mut v = pre.into_bytes(); while v.len() < len + extra { v.extend_from_slice(unit.as_bytes()); } Bytes(v) })
 }
 
@@ -332,6 +332,8 @@ pub fn free_base() -> impl Strategy<Value = Base> {
 
 pub fn mut_strategy() -> impl Strategy<Value = Mut> {
     let bytes = prop_oneof![
+        // incl. Latin-1 supplement characters and "mojibake" pairs (UTF-8 bytes read as Latin-1: consecutive characters U+0080..U+00FF whose low bytes form valid UTF-8)
+        1 => prop::sample::select(vec!["Ã©", "Ã¼", "Ã±", "Â£", "Ã\u{a0}", "ÿ", "\u{80}", "\u{9f}", "Ä", "Ã©A=", "Ã\u{83}Â©"]).prop_map(|s| Bytes(s.as_bytes().to_vec())),
         3 => prop::sample::select(vec!["\r", "\n", "\r\n", "\0", " ", ":", ": ", "\u{ff}", "%", "\t", "--", "=", "&", "\r\n\r\n", "é"]).prop_map(|s| if s == "\u{ff}" { Bytes(vec![0xff]) } else { Bytes(s.as_bytes().to_vec()) }),
         1 => proptest::collection::vec(any::<u8>(), 1..6).prop_map(Bytes),
         1 => long_text(),
